@@ -8,7 +8,7 @@ from mc import core, netalpha as na, j_topo as jt
 PROPERTY = "C26"
 LEVEL = "exploration"
 META = {
-    "text": "For every net reachable from 5 base nets by <=2 topology deviations (every bus-bus / line / trafo / trafo3w switch position, in_service flag of buses and branches, parallel line, impedance, dcline, impedance switch, extra bus) the real create_nxgraph is called under the Cartesian product of respect_switches x include_* (bool and explicit index lists) x nogobuses x notravbuses x multi x include_out_of_service and its node set, adjacency (edge multiset with keys, edge set for multi=False) and weights are compared with a reference graph written from the docstring with plain Python sets; connected_components must partition the node set into the BFS components of the reference (notravbuses: reached, not traversed) and calc_distance_to_bus must equal Dijkstra on the reference for every source bus; exhaustive within the bound, no sampling.",
+    "text": "For every net reachable from 6 base nets (incl. two parallel three-winding transformers) by <=2 topology deviations (every bus-bus / line / trafo / trafo3w switch position, in_service flag of buses and branches, parallel line, impedance, dcline, impedance switch, extra bus) the real create_nxgraph is called under the Cartesian product of respect_switches x include_* (bool and explicit index lists) x nogobuses x notravbuses x multi x include_out_of_service and its node set, adjacency (edge multiset with keys, edge set for multi=False) and weights are compared with a reference graph written from the docstring with plain Python sets; connected_components must partition the node set into the BFS components of the reference (notravbuses: reached, not traversed) and calc_distance_to_bus must equal Dijkstra on the reference for every source bus; exhaustive within the bound, no sampling.",
     "note": "Trusted: mc/j_topo.py reference (docstring semantics; notravbuses read as 'reachable but not traversed' as pinned by test_distance and the code comment; include_out_of_service=True read as including out-of-service branches as well as buses, as used by the plotting module; include_switches index lists read like the other include_* options). tcsc/vsc/line_dc, calc_branch_impedances, trafo_length_km, graph_tool and networks beyond 6 buses are not covered.",
     "technique": "bounded exhaustive input enumeration (deviation-bounded nets x full option product) of the real create_nxgraph / connected_components / calc_distance_to_bus against a set-based reference graph",
     "design_ref": "DESIGN.md §3 E1, §4 C26",
@@ -340,7 +340,7 @@ def run_case(case):
             eval_graph(top, net, T, case, {k: v for k, v in only.items()}, out, sigs, True)
     else:
         allb = [b for b, _ in T["bus"]]
-        hot = [b for b in na.HOT[case["base"]]][:2]
+        hot = [b for b in jt.HOT[case["base"]]][:2]
         if len(hot) < 2:
             hot = hot + [b for b in allb if b not in hot][:1]
         bsel = allb if case["bsel"] == "all" else hot if case["bsel"] == "hot2" else hot[:1]
